@@ -137,7 +137,7 @@ theorem aggAt_count_fields {q : Query} (hfn : q.fn = .count) (hf : q.fields ≠ 
     aggAt q ss g t =
       if (members q ss g t).isEmpty then none else some (specValue .count q.step t (members q ss g t)) := by
   rw [aggAt_members]
-  simp only [hfn, if_neg hf, specValue]
+  simp only [hfn, specValue]
 
 /-! ### grouping by all labels -/
 
